@@ -4,7 +4,10 @@ EXTENDS HintInstance
 \*  1 synthetic S1 @16 mono    2 synthetic S2 @16 mono   3 synthetic S1 @12 smooth   4 synthetic S2 @20 smooth
 \*  5 tinos @16 smooth         6 tthint @14 mono         7 cvar @16 (coords)         8 material symbols @18 (coords)
 \*  9 NotoSansJP CFF @16       10 cantarell CFF2 @16 (coords)   11 hebrew autohint @16   12 synthetic S3 (failing prep) @16
-MCConfigs == 1..12
-MCKindOf == [c \in 1..12 |-> CASE c \in {9, 10} -> "cff" [] c = 11 -> "auto" [] OTHER -> "glyf"]
-MCFails == [c \in 1..12 |-> IF c = 12 THEN "prep" ELSE "no"]
+\*  13 tinos @7 (prep switches hinting off)   14/15/16 synthetic S4 @10/@16/@40 (prep: cut-in 0 below 11 ppem, glyph programs off above 30)
+\*  17 synthetic S5 degenerate contours (no programs: auto-hinter fallback)   18 avar2 checker / 19 vazirmatn / 20 colrv0v1-variable
+\*  at the default location through the interpreter
+MCConfigs == 1..20
+MCKindOf == [c \in 1..20 |-> CASE c \in {9, 10} -> "cff" [] c \in {11, 17} -> "auto" [] OTHER -> "glyf"]
+MCFails == [c \in 1..20 |-> IF c = 12 THEN "prep" ELSE "no"]
 ====
